@@ -99,7 +99,11 @@ def run(R):
                      "false only after ALL constraints were joined without a match")
     R.rule("C19-R7", "repair-aware materialisation starts from exactly the chosen repair: when the stored facts are inconsistent the "
                      "index is emptied and refilled with every fact of the repair, and the working fact set becomes that repair")
+    R.rule("C19-R8", "the repair search ranges over all facts: the first candidate is (a copy of) the complete fact set handed to "
+                     "compute_repairs - not a pre-filtered part of it - and the repairs are returned as found (nothing is added to them "
+                     "afterwards), so every fact that can take part in a violation is examined")
     r6_r7(R)
+    r8(R)
     cr = R.body("C19-R1", "Reasoner::compute_repairs", crate="datalog")
     if cr is not None:
         r5(R, cr)
@@ -289,3 +293,45 @@ def r6_r7(R):
             if not pl["p"] and mat.local_name(pl["l"]) == "all_facts" and rv["rv"] == "use" and mat.alias_root(rv["op"]) == rep and mat.dominates(c0.bb, bb):
                 asg = True
         R.ob("C19-R7", "working-set", "the working fact set becomes the same repair", asg, where=mat.where(fills[0][0].ln))
+
+
+def r8(R):
+    from lib import pipeline as P
+    prog = R.prog
+    cr = prog.one("Reasoner::compute_repairs", crate="datalog")
+    if cr is None:
+        return
+    # the vector that is popped in the search loop
+    pops = [c for c in cr.calls() if c.name() == "pop" and c.args]
+    R.ob("C19-R8", "queue", "compute_repairs pops candidates from a work queue", len(pops) >= 1, where=cr.where())
+    if not pops:
+        return
+    q = cr.alias_root(pops[0].args[0])
+    # initial content: the definition of the queue before the loop
+    h = [hh for hh, blk in cr.loops() if pops[0].bb in blk]
+    terms = []
+    P.coverage_terminals(prog, cr, {"k": "copy", "pl": {"l": q, "p": [], "t": ""}}, set(), terms)
+    srcs = sorted({"%s:%s" % (t[0], t[1]) for t in terms})
+    ok = bool(terms) and all(t[0] == "param" and t[1] == "facts" for t in terms)
+    R.ob("C19-R8", "starts-from-all-facts", "the search starts from the complete fact set (initial candidate built from: %s)" % srcs, ok, where=cr.where(),
+         detail=None if ok else "facts left out of the search are never removed from a violating set: if the pre-filter misses a way a fact can match a "
+         "constraint (e.g. a variable in predicate position), every `repair` still violates it")
+    # nothing is added to the repairs after the search loop
+    rep = None
+    for d in cr.defs().get(0, []):
+        if d[0] == "assign" and d[3]["rv"] == "use":
+            rep = cr.alias_root(d[3]["op"])
+    late = []
+    if rep is not None and h:
+        loop_blocks = set()
+        for hh, blk in cr.loops():
+            if pops[0].bb in blk:
+                loop_blocks |= set(blk)
+        for c in cr.calls():
+            if c.bb in loop_blocks:
+                continue
+            if c.name() in ("extend", "insert", "push", "iter_mut", "append") and c.args and cr.alias_root(c.args[0]) == rep and \
+                    any(cr.dominates(b0, c.bb) for b0 in loop_blocks):
+                late.append(c)
+    R.ob("C19-R8", "returned-as-found", "the repairs are returned as the search found them (writes after the loop: %s)" % [c.name() for c in late], not late,
+         where=cr.where(late[0].ln if late else None))
